@@ -4,12 +4,14 @@ LEAN_MODULE = "Hw.Props.C02"
 NS = "Hw.Props.C02."
 THEOREMS = [NS + t for t in """C02_step_wf C02_history_wf C02_allow_einval_unchanged C02_allow_only_allowed_sets C02_objects_stable
 C02_infos_remove C02_infos_replace C02_infos_add C02_infos_add_unique C02_infos_einval
-C02_insert_conserves_objects C02_insert_preserves_laminar C02_group_insert C02_group_insert_wf C02_refused_insert_unchanged C02_insert_keeps_order C02_reorder_sorts C02_laminar_check_sound""".split()]
+C02_insert_conserves_objects C02_insert_preserves_laminar C02_group_insert C02_group_insert_wf C02_refused_insert_unchanged C02_insert_keeps_order C02_reorder_sorts C02_laminar_check_sound
+C02_insert_misc_wf C02_insert_misc_wf_any_position C02_insert_misc_filtered_unchanged C02_insert_misc_einval_unchanged C02_insert_misc_frame C02_insert_misc_frame_fields C02_insert_misc_gp C02_step_misc_wf C02_history_misc_wf""".split()]
 TRUSTED = ["harness/dump.h + lean/Driver/Topo.lean (dump and its parser); lean/Driver/History.lean (per-step judgement: WF oracle, model prediction, unchanged-on-failure, gp/type stability); userdata stability is checked in C by the harness",
-           "Group insertion: the tree shape after hwloc_topology_insert_group_object (parents, order, merge decisions, moved memory children) is PREDICTED by the model of hwloc___insert_object_by_cpuset (lean/Hw/Topo/Insert.lean) and compared with the real dump; the theorems hold for laminar trees, and the driver evaluates the (proved sound) laminarity check on every real tree before the call", "PARTIAL: restrict, Misc insertion, distances grouping, memattr/cpukind registration, refresh are not predicted by the model; after each such call the real topology is judged by the proved WF oracle and the stability relations"]
+           "Group insertion: the tree shape after hwloc_topology_insert_group_object (parents, order, merge decisions, moved memory children) is PREDICTED by the model of hwloc___insert_object_by_cpuset (lean/Hw/Topo/Insert.lean) and compared with the real dump; the theorems hold for laminar trees, and the driver evaluates the (proved sound) laminarity check on every real tree before the call", "Misc insertion: the WHOLE dump after hwloc_topology_insert_misc_object (ids, links, ranks, arities, logical indexes, cousins, levels, name, gp order) is PREDICTED by the dump-level model lean/Hw/Topo/MiscInsert.lean (the model of the C02_insert_misc_* theorems) and compared for equality with the real dump; the only input taken from the real result is the new gp_index (next_gp_index is not observable), which must be above every old one",
+           "PARTIAL: restrict, distances grouping, memattr/cpukind registration, refresh are not predicted by the model; after each such call the real topology is judged by the proved WF oracle and the stability relations"]
 ASSUMPTIONS = ["topologies: synthetic presets and bundled XML files (<= 400 objects), with/without INCLUDE_DISALLOWED, three filter presets; histories of 2-10 calls"]
-MODELLED = ("modelled (state predicted exactly): hwloc_topology_allow, hwloc_obj_add_info, hwloc_modify_infos (in-place array code), hwloc_obj_set_subtype; "
-            "exercised and oracle-judged after every step: restrict, insert_misc, alloc/insert/free group, distances add (with grouping) / remove, memattr register+set, cpukinds register, refresh")
+MODELLED = ("modelled (state predicted exactly): hwloc_topology_allow, hwloc_obj_add_info, hwloc_modify_infos (in-place array code), hwloc_obj_set_subtype, hwloc_topology_insert_misc_object (+ hwloc_insert_object_by_parent for Misc, the Misc part of hwloc_topology_reconnect); "
+            "exercised and oracle-judged after every step: restrict, alloc/insert/free group (shape predicted by the insertion model), distances add (with grouping) / remove, memattr register+set, cpukinds register, refresh")
 
 def run_engines(tier, seed):
     return eng_history.run_engine(tier, seed)
